@@ -253,7 +253,14 @@ static void String_Concat(var self, var obj) {
   }
 #endif
   
-  s->val = realloc(s->val, strlen(s->val) + strlen(c_str(obj)) + 1);
+  /* `obj` may be `self` (concat(s, s)): measure both parts first, and copy
+  ** the second by offset so that it is never read through a stale pointer. */
+  char* add = c_str(obj);
+  size_t n = strlen(s->val);
+  size_t m = strlen(add);
+  size_t off = (add >= s->val and add <= s->val + n) ? (size_t)(add - s->val) : (size_t)-1;
+  
+  s->val = realloc(s->val, n + m + 1);
   
 #if CELLO_MEMORY_CHECK == 1
   if (s->val is NULL) {
@@ -261,7 +268,8 @@ static void String_Concat(var self, var obj) {
   }
 #endif
   
-  strcat(s->val, c_str(obj));
+  memmove(s->val + n, off isnt (size_t)-1 ? s->val + off : add, m);
+  s->val[n + m] = '\0';
 }
 
 static void String_Resize(var self, size_t n) {
